@@ -133,3 +133,17 @@ func init() {
 		Rules:       []*Rule{ruleEOLState, exhaustRule("format", 25), ruleLayoutKey},
 	})
 }
+
+func init() {
+	Register(&Property{
+		ID: "C01",
+		Explanation: "Decides the structural part of expression semantics: the Pratt binding powers agree with the specification's precedence list, " +
+			"every binary operator token has one, unary and index bind tighter, equal powers associate to the left (R-PREC); operands, index and " +
+			"slice bounds, range triples, list elements and map-literal values are evaluated left to right, and/or skip their right operand exactly " +
+			"under the documented conditions (R-EVALORDER, R-MAPRANGE); the operator×operand matrix implemented by the evaluator and admitted by " +
+			"the parser equals the specification's table (R-DISPATCH).",
+		NotDecided:  "Numerical/string results of each operator, deep equality, the whitespace-sensitive tokenisation.",
+		Assumptions: []string{"docs/spec.md keeps its `## Precedence` numbered list and its operator table (otherwise the check is undecided, never silent)"},
+		Rules:       []*Rule{rulePrec, ruleEvalOrder, ruleDispatch, ruleMapRange},
+	})
+}
